@@ -92,7 +92,7 @@ class RegWorld:
     if dotted_name:
       name, module = module + '.' + name, None
     if not q['nameValid']:
-      name = 'bad name!'
+      name = ['bad name!', '', 'a b', '1x'][self.step % 4]
     if not q['moduleValid']:
       module = ['bad module!', '', 'a..b'][self.step % 3]
     kw = dict(module=module)
